@@ -323,3 +323,70 @@ package client
 //@   ensures [sent] err == nil ==> nsent[10] == old(nsent[10]) + 1 && lastid[10] != 0 && has(c.futureStore.store, lastid[10]) && !c.futureStore.store[lastid[10]].done
 //@   ensures [released] held[c.mutex] == 0
 //@   modifies everything
+
+// ---------------------------------------------------------------- Service (C17, C15)
+//
+// Commands enter the queue only at the three API functions and leave it only
+// at the single receive of the dispatcher (structural obligations): with Go's
+// FIFO channels they are carried out in the order issued.
+//@ ghost ncmdqueued int
+//@ func chan.send:Service.commandQueue(ch int, v *command)
+//@   requires [cmd] v != nil && v.future != nil
+//@   ensures ncmdqueued == old(ncmdqueued) + 1
+//@   modifies ncmdqueued
+//@ sends Service.commandQueue: (*Service).PublishMessage, (*Service).SubscribeMultiple, (*Service).UnsubscribeMultiple
+//@ recvs Service.commandQueue: (*Service).dispatcher
+//@ selectsends Service.commandQueue: nothing
+//@ writers Service.started: (*Service).Start, (*Service).Stop
+//@ writers Service.tomb: (*Service).Start
+//@ writers Service.futureStore: NewService
+//@ writers Service.commandQueue: NewService
+//@ writers Service.subscriptions: NewService
+//@ callsites (*Store).Protect: (*Service).Start, (*Service).Stop
+//@ callsites (*Future).Attach: (*Service).dispatcher
+//
+// Object invariant (under s.mutex): a started service has a tomb with a
+// running supervisor, and its future store is protected, so that futures
+// survive the reconnects of the clients it creates.
+//@ spec pred service_inv(s *Service) = s.futureStore != nil && s.commandQueue != nil && held[s.futureStore.mutex] == 0 && (s.started ==> s.tomb != nil && tstarted[s.tomb] > 0 && s.futureStore.protected)
+//
+//@ func (s *Service) Start(config *Config) (ok bool)
+//@   requires [config] config != nil
+//@   requires [unlocked] held[s.mutex] == 0
+//@   requires [invariant] service_inv(s)
+//@   ensures [started] s.started && service_inv(s)
+//@   ensures [once] ok <==> !old(s.started)
+//@   ensures [protected] s.futureStore.protected
+//@   ensures [released] held == old(held)
+//@   modifies s.started, s.config, s.backoff, s.tomb, s.futureStore.protected, tstarted, held
+//
+//@ func (s *Service) Stop(clearFutures bool) (ok bool)
+//@   requires [unlocked] held[s.mutex] == 0
+//@   requires [invariant] service_inv(s) && stored_ok(s.futureStore)
+//@   ensures [stopped] !s.started && service_inv(s)
+//@   ensures [once] ok <==> old(s.started)
+//@   ensures [cleared] old(s.started) && clearFutures ==> !s.futureStore.protected && len(s.futureStore.store) == 0 && forall k packet.ID {old(s.futureStore.store)[k]} :: old(has(s.futureStore.store, k)) ==> old(s.futureStore.store)[k].done
+//@   ensures [kept] !(old(s.started) && clearFutures) ==> s.futureStore.store == old(s.futureStore.store) && (s.futureStore.protected <==> old(s.futureStore.protected))
+//@   ensures [released] held == old(held)
+//@   modifies s.started, tdying, s.futureStore.protected, s.futureStore.store, any(future.Future.result), any(future.Future.done), fclosed, held
+//
+// The enqueueing API functions: the returned future is either queued with its
+// command or cancelled (queue timeout) - never lost.
+//@ func (s *Service) PublishMessage(msg *packet.Message) (f GenericFuture)
+//@   requires [unlocked] held[s.mutex] == 0
+//@   ensures [future] f != nil && as(f, *future.Future) != nil
+//@   ensures [queued-or-cancelled] ncmdqueued == old(ncmdqueued) + 1 || as(f, *future.Future).done
+//@   ensures [released] held == old(held)
+//@   modifies ncmdqueued, any(future.Future.result), any(future.Future.done), fclosed, held
+//@ func (s *Service) SubscribeMultiple(subscriptions []packet.Subscription) (f SubscribeFuture)
+//@   requires [unlocked] held[s.mutex] == 0
+//@   ensures [future] f != nil && as(f, *subscribeFuture) != nil && as(f, *subscribeFuture).Future != nil
+//@   ensures [queued-or-cancelled] ncmdqueued == old(ncmdqueued) + 1 || as(f, *subscribeFuture).Future.done
+//@   ensures [released] held == old(held)
+//@   modifies ncmdqueued, any(future.Future.result), any(future.Future.done), fclosed, held
+//@ func (s *Service) UnsubscribeMultiple(topics []string) (f GenericFuture)
+//@   requires [unlocked] held[s.mutex] == 0
+//@   ensures [future] f != nil && as(f, *future.Future) != nil
+//@   ensures [queued-or-cancelled] ncmdqueued == old(ncmdqueued) + 1 || as(f, *future.Future).done
+//@   ensures [released] held == old(held)
+//@   modifies ncmdqueued, any(future.Future.result), any(future.Future.done), fclosed, held
